@@ -176,55 +176,62 @@ func (e *Env) RGoastGates() {
 		return
 	}
 	nDef, nAlias := 0, 0
-	ast.Inspect(fd.Body, func(nd ast.Node) bool {
-		as, ok := nd.(*ast.AssignStmt)
-		if !ok || len(as.Lhs) != 1 || len(as.Rhs) != 1 {
-			return true
+	// (the scan of one import spec may live in a helper: every function of the package is read)
+	for _, fd := range load.AllFuncDecls(pkg) {
+		if fd.Body == nil {
+			continue
 		}
-		// r.RestorerResolver = guess.New()
-		if se, ok := ast.Unparen(as.Lhs[0]).(*ast.SelectorExpr); ok && se.Sel.Name == "RestorerResolver" {
-			nDef++
-			lhs := types.ExprString(se)
-			pc, okp := pathCond(c, fd.Body.List, as)
-			e.Run.Check("R-GATE", "goast: the caller's package-name resolver is replaced by the default only when there is none", e.Prog.Pos(as.Pos()), okp && strings.TrimSpace(pc) == lhs+" == nil",
-				"the default is stored under «"+pc+"» (specified: `"+lhs+" == nil`): the resolver given to goast.WithResolver is thrown away, packages whose name is not the last element of their path (gopkg.in/yaml.v2) are no longer recognised")
-		}
-		// name = node.Name.Name
-		if id, ok := as.Lhs[0].(*ast.Ident); ok {
-			if se, ok := ast.Unparen(as.Rhs[0]).(*ast.SelectorExpr); ok && se.Sel.Name == "Name" {
-				if inner, ok := ast.Unparen(se.X).(*ast.SelectorExpr); ok && inner.Sel.Name == "Name" {
-					if _, tn := namedOf(info.TypeOf(inner.X)); tn == "ImportSpec" {
-						nAlias++
-						want := types.ExprString(inner) + " != nil"
-						// the condition inside the innermost function literal / function
-						body := fd.Body.List
-						ast.Inspect(fd.Body, func(m ast.Node) bool {
-							if fl, ok := m.(*ast.FuncLit); ok && fl.Body.Pos() <= as.Pos() && as.End() <= fl.Body.End() {
-								body = fl.Body.List
+		fd := fd
+		ast.Inspect(fd.Body, func(nd ast.Node) bool {
+			as, ok := nd.(*ast.AssignStmt)
+			if !ok || len(as.Lhs) != 1 || len(as.Rhs) != 1 {
+				return true
+			}
+			// r.RestorerResolver = guess.New()
+			if se, ok := ast.Unparen(as.Lhs[0]).(*ast.SelectorExpr); ok && se.Sel.Name == "RestorerResolver" {
+				nDef++
+				lhs := types.ExprString(se)
+				pc, okp := pathCond(c, fd.Body.List, as)
+				e.Run.Check("R-GATE", "goast: the caller's package-name resolver is replaced by the default only when there is none", e.Prog.Pos(as.Pos()), okp && strings.TrimSpace(pc) == lhs+" == nil",
+					"the default is stored under «"+pc+"» (specified: `"+lhs+" == nil`): the resolver given to goast.WithResolver is thrown away, packages whose name is not the last element of their path (gopkg.in/yaml.v2) are no longer recognised")
+			}
+			// name = node.Name.Name
+			if id, ok := as.Lhs[0].(*ast.Ident); ok {
+				if se, ok := ast.Unparen(as.Rhs[0]).(*ast.SelectorExpr); ok && se.Sel.Name == "Name" {
+					if inner, ok := ast.Unparen(se.X).(*ast.SelectorExpr); ok && inner.Sel.Name == "Name" {
+						if _, tn := namedOf(info.TypeOf(inner.X)); tn == "ImportSpec" {
+							nAlias++
+							want := types.ExprString(inner) + " != nil"
+							// the condition inside the innermost function literal / function
+							body := fd.Body.List
+							ast.Inspect(fd.Body, func(m ast.Node) bool {
+								if fl, ok := m.(*ast.FuncLit); ok && fl.Body.Pos() <= as.Pos() && as.End() <= fl.Body.End() {
+									body = fl.Body.List
+								}
+								return true
+							})
+							pc, okp := pathCond(c, body, as)
+							has, bad := false, false
+							for _, cj := range flatConjuncts(orTrue(pc)) {
+								cj = strings.TrimSpace(cj)
+								if cj == want {
+									has = true
+								}
+								if cj == "false" {
+									bad = true
+								}
 							}
-							return true
-						})
-						pc, okp := pathCond(c, body, as)
-						has, bad := false, false
-						for _, cj := range flatConjuncts(orTrue(pc)) {
-							cj = strings.TrimSpace(cj)
-							if cj == want {
-								has = true
-							}
-							if cj == "false" {
-								bad = true
-							}
+							e.Run.Check("R-GATE", "goast: an import's alias is the name the file uses for the package", e.Prog.Pos(as.Pos()), okp && has && !bad,
+								"`"+id.Name+" = "+types.ExprString(as.Rhs[0])+"` runs under «"+pc+"» (needs the conjunct `"+want+"` and no constant): aliased imports are entered under their package names, `f.Println` with `import f \"fmt\"` gets no path, dot and blank imports are treated as ordinary ones")
 						}
-						e.Run.Check("R-GATE", "goast: an import's alias is the name the file uses for the package", e.Prog.Pos(as.Pos()), okp && has && !bad,
-							"`"+id.Name+" = "+types.ExprString(as.Rhs[0])+"` runs under «"+pc+"» (needs the conjunct `"+want+"` and no constant): aliased imports are entered under their package names, `f.Println` with `import f \"fmt\"` gets no path, dot and blank imports are treated as ordinary ones")
 					}
 				}
 			}
-		}
-		return true
-	})
+			return true
+		})
+	}
 	e.Run.Analysed("R-GATE goast default resolver stores", nDef)
-	e.Run.Analysed("R-GATE goast alias reads", nAlias)
+	e.Run.Floor("R-GATE", "goast alias reads (name = <spec>.Name.Name)", nAlias, 1)
 }
 
 // RMapInit (R-MAPS): a map-typed field of the node being built is allocated before it is stored
@@ -291,4 +298,170 @@ func (e *Env) RMapInit() {
 		}
 	}
 	e.Run.Analysed("R-MAPS stores into map fields of new nodes", n)
+}
+
+// RCgoBlock (R-GATE): the two special cases for `import "C"` in updateImports. (1) A declaration
+// is set aside as the cgo block — not offered as a place for new imports — only when it is exactly
+// the lone `import "C"`: the flag is stored under `len(n.Specs) == 1 && <path of Specs[0]> == "C"`.
+// (2) A new import declaration is put into File.Decls without losing or repeating a declaration:
+// the new list is either `gd` followed by all of Decls, or Decls[0], gd, Decls[1:]... — a prefix
+// Decls[:k] (written element by element), the new declaration, and the rest Decls[k:] with the
+// same k.
+func (e *Env) RCgoBlock() {
+	pkg := e.Prog.Pkg(load.PkgDecorator)
+	info := pkg.TypesInfo
+	c := e.Sib.Ctx[load.PkgDecorator]
+	fd := load.FuncDecl(pkg, "FileRestorer", "updateImports")
+	if fd == nil || fd.Body == nil {
+		return
+	}
+	nFlag, nSplice := 0, 0
+	ast.Inspect(fd.Body, func(nd ast.Node) bool {
+		as, ok := nd.(*ast.AssignStmt)
+		if !ok || len(as.Lhs) != 1 || len(as.Rhs) != 1 {
+			return true
+		}
+		// (1) hasCgoBlock = true
+		if id, ok := as.Lhs[0].(*ast.Ident); ok && id.Name == "hasCgoBlock" && types.ExprString(as.Rhs[0]) == "true" {
+			nFlag++
+			body := fd.Body.List
+			ast.Inspect(fd.Body, func(m ast.Node) bool {
+				if fl, ok := m.(*ast.FuncLit); ok && fl.Body.Pos() <= as.Pos() && as.End() <= fl.Body.End() {
+					body = fl.Body.List
+				}
+				return true
+			})
+			pc, okp := pathCond(c, body, as)
+			one, isC := false, false
+			for _, cj := range flatConjuncts(orTrue(pc)) {
+				cj = strings.TrimSpace(cj)
+				if strings.HasPrefix(cj, "len(") && strings.HasSuffix(cj, ".Specs) == 1") {
+					one = true
+				}
+				if strings.HasSuffix(cj, `== "C"`) && strings.Contains(cj, "Specs[0]") {
+					isC = true
+				}
+			}
+			e.Run.Check("R-GATE", "updateImports: only the lone import \"C\" is set aside as the cgo block", e.Prog.Pos(as.Pos()), okp && one && isC,
+				"the flag is set under «"+pc+"» (specified: exactly one spec, and its path is \"C\"): an empty `import ()` is indexed at [0] and panics, or an ordinary single import is set aside and no longer updated")
+		}
+		// (2) r.file.Decls = append([]dst.Decl{…, gd, …}, r.file.Decls[k:]...)
+		se, ok := ast.Unparen(as.Lhs[0]).(*ast.SelectorExpr)
+		if !ok || se.Sel.Name != "Decls" {
+			return true
+		}
+		call, ok := ast.Unparen(as.Rhs[0]).(*ast.CallExpr)
+		if !ok || len(call.Args) != 2 || !call.Ellipsis.IsValid() {
+			return true
+		}
+		lit, ok := ast.Unparen(call.Args[0]).(*ast.CompositeLit)
+		if !ok {
+			return true
+		}
+		decls := types.ExprString(se)
+		nSplice++
+		// prefix elements Decls[0], Decls[1], …, then exactly one element that is not taken from Decls
+		k, fresh, good := 0, 0, true
+		for _, el := range lit.Elts {
+			if ix, ok := ast.Unparen(el).(*ast.IndexExpr); ok && types.ExprString(ix.X) == decls {
+				if v, ok := constInt(info, ix.Index); !ok || int(v) != k || fresh > 0 {
+					good = false
+				}
+				k++
+				continue
+			}
+			fresh++
+		}
+		rest := ast.Unparen(call.Args[1])
+		switch r := rest.(type) {
+		case *ast.SliceExpr:
+			lo := int64(0)
+			if r.Low != nil {
+				v, ok := constInt(info, r.Low)
+				if !ok {
+					good = false
+				}
+				lo = v
+			}
+			if types.ExprString(r.X) != decls || r.High != nil || int(lo) != k {
+				good = false
+			}
+		default:
+			if types.ExprString(rest) != decls || k != 0 {
+				good = false
+			}
+		}
+		e.Run.Check("R-GATE", "updateImports: a new import declaration is inserted into File.Decls without dropping or repeating a declaration", e.Prog.Pos(as.Pos()), good && fresh == 1,
+			"the new list is `"+c.ExprStr(as.Rhs[0])+"`: it must be Decls[0..k-1], the new declaration, Decls[k:]... for one k — otherwise the cgo import (or the declaration behind it) is lost or restored twice (\"duplicate node\")")
+		return true
+	})
+	// (3) the declaration that is offered as the place for new specs (blocks = append(blocks, gd))
+	// has been put into File.Decls on every path that leads there
+	ast.Inspect(fd.Body, func(nd ast.Node) bool {
+		blk, ok := nd.(*ast.BlockStmt)
+		if !ok {
+			return true
+		}
+		for i, st := range blk.List {
+			as, ok := st.(*ast.AssignStmt)
+			if !ok || len(as.Lhs) != 1 || len(as.Rhs) != 1 || types.ExprString(as.Lhs[0]) != "blocks" {
+				continue
+			}
+			call, ok := ast.Unparen(as.Rhs[0]).(*ast.CallExpr)
+			if !ok || len(call.Args) != 2 {
+				continue
+			}
+			gd, ok := ast.Unparen(call.Args[1]).(*ast.Ident)
+			if !ok || info.Uses[gd] == nil {
+				continue
+			}
+			// only a declaration that was created here (x := &dst.GenDecl{…})
+			created := false
+			for _, prev := range blk.List[:i] {
+				if d, ok := prev.(*ast.AssignStmt); ok && d.Tok == token.DEFINE && len(d.Lhs) == 1 {
+					if id, ok := d.Lhs[0].(*ast.Ident); ok && info.Defs[id] == info.Uses[gd] {
+						created = true
+					}
+				}
+			}
+			if !created {
+				continue
+			}
+			stores := func(n ast.Node) bool {
+				found := false
+				ast.Inspect(n, func(m ast.Node) bool {
+					if a, ok := m.(*ast.AssignStmt); ok && len(a.Lhs) == 1 {
+						if se, ok := ast.Unparen(a.Lhs[0]).(*ast.SelectorExpr); ok && se.Sel.Name == "Decls" {
+							ast.Inspect(a.Rhs[0], func(x ast.Node) bool {
+								if id, ok := x.(*ast.Ident); ok && info.Uses[id] == info.Uses[gd] {
+									found = true
+								}
+								return true
+							})
+						}
+					}
+					return true
+				})
+				return found
+			}
+			inserted := false
+			for _, prev := range blk.List[:i] {
+				switch p := prev.(type) {
+				case *ast.IfStmt:
+					if p.Else != nil && stores(p.Body) && stores(p.Else) {
+						inserted = true
+					}
+				case *ast.AssignStmt:
+					if stores(p) {
+						inserted = true
+					}
+				}
+			}
+			e.Run.Check("R-GATE", "updateImports: a newly created import declaration is in File.Decls on every path", e.Prog.Pos(as.Pos()), inserted,
+				"the declaration "+gd.Name+" receives the new import specs but is not stored into File.Decls on every path that leads here: with a cgo block in the file the added imports are never printed")
+		}
+		return true
+	})
+	e.Run.Analysed("R-GATE cgo block flag stores", nFlag)
+	e.Run.Analysed("R-GATE insertions of a new import declaration", nSplice)
 }
